@@ -43,6 +43,10 @@ def run(ctx):
     c_restart_guards(ctx)
     d_event_cap(ctx)
     e_error_handler_flows(ctx)
+    a_typed_stores(ctx)
+    c_restart_once(ctx)
+    from . import C06
+    C06.d_cleanup_keeps_reference(ctx, ctx.tree.ast(SM), rule="C10.a.cleanup-keeps-reference")
 
 
 def leaf_sites(fn):
@@ -272,3 +276,63 @@ def e_error_handler_flows(ctx):
                                   "the ColangError handler interpolates `%s` unescaped: an error text containing quotes breaks the handler's own expression, the new error matches the restarted handler, which fails again - forever" % m.group(1),
                                   line=s_.line)
     ctx.floor("C10.e.error-handler", "nemoguardrails/colang/v2_x/library", "interpolations of the error text in ColangError handler flows", n, 1)
+
+
+def a_typed_stores(ctx):
+    """`a faulty flow fails alone`: slide() runs inside the per-flow try, the event MATCHER does not.  A value that a flow computes and that the matcher later uses
+    arithmetically (the flow priority multiplies the score) must therefore be type-checked where it is stored, inside slide(): every non-number has to raise there."""
+    t = ctx.tree.ast(SM)
+    sl = find_function(t, "slide")
+    if sl is None:
+        raise AnalysisError("slide not found", anchor=SM + "::slide")
+    stores = [a for a in ast.walk(sl) if isinstance(a, ast.Assign) and isinstance(a.targets[0], ast.Attribute) and a.targets[0].attr == "priority" and isinstance(a.value, ast.Name)]
+    ctx.floor("C10.a.typed-store", SM, "stores of a computed flow priority", len(stores), 1)
+    for a in stores:
+        v = a.value.id
+        blk = None
+        p_ = a._parent
+        for f in ("body", "orelse"):
+            b = getattr(p_, f, None)
+            if isinstance(b, list) and a in b:
+                blk = b
+        checks = [i for i in (blk or []) if isinstance(i, ast.If) and i.lineno < a.lineno and any(isinstance(r, ast.Raise) for r in i.body)]
+        ok = False
+        for i in checks:
+            ops = i.test.values if isinstance(i.test, ast.BoolOp) and isinstance(i.test.op, ast.Or) else [i.test]
+            for o in ops:
+                if isinstance(o, ast.UnaryOp) and isinstance(o.op, ast.Not) and isinstance(o.operand, ast.Call) and src(o.operand.func) == "isinstance" and src(o.operand.args[0]) == v:
+                    ok = True
+        ctx.check("C10.a.typed-store", SM, "slide", first_line(a, 60), ok,
+                  "a priority that is not a number raises inside slide() (inside the per-flow containment)" if ok else
+                  "no check before `%s` raises for a NON-NUMBER: `priority \"0.5\"` is stored, and the uncontained matcher later multiplies the score by it - TypeError out of run_to_completion for every later "
+                  "event the flow is a candidate for, so all other flows lose those events" % first_line(a, 50), line=a.lineno)
+
+
+def c_restart_once(ctx):
+    """An activated flow is restarted when its instance ends - once.  An instance that has already started its replacement at a `start_new_flow_instance` label
+    (new_instance_started) must not start another one when it later finishes or fails: both restart sites carry the guard, otherwise the number of live instances
+    doubles with every failing event and the work per event is no longer bounded by the program."""
+    t = ctx.tree.ast(SM)
+    n = 0
+    for name in ("_abort_flow", "_finish_flow"):
+        fn = find_function(t, name)
+        if fn is None:
+            raise AnalysisError("%s not found" % name, anchor=SM + "::" + name)
+        # restart site: the creation of the StartFlow event from the ended instance, directly or in a helper
+        sites = []
+        for i in [x for x in ast.walk(fn) if isinstance(x, ast.If)]:
+            direct = [st for st in i.body if not isinstance(st, (ast.If, ast.For, ast.While))]
+            body_calls = {src(c.func) for st in direct for c in ast.walk(st) if isinstance(c, ast.Call)}
+            helper_restart = any(c.isidentifier() and c not in ("_abort_flow", "_finish_flow") and find_function(t, c) is not None and "start_event(" in src(find_function(t, c))
+                                 and "_push" in src(find_function(t, c)) and len(src(find_function(t, c)).splitlines()) < 40 for c in body_calls)
+            if any(c.endswith(".start_event") for c in body_calls) or helper_restart:
+                if "activated" in src(i.test):
+                    sites.append(i)
+        for i in sites:
+            n += 1
+            ok = re.search(r"not\s+\w+\.new_instance_started", src(i.test)) is not None
+            ctx.check("C10.c.restart-once", SM, name, first_line(i.test, 70), ok,
+                      "the restart of an activated flow is skipped when the instance has already started its replacement" if ok else
+                      "the restart in %s lacks `not flow_state.new_instance_started`: an activated flow that restarted early (start_new_flow_instance label) and then fails is restarted a SECOND time - "
+                      "live instances double with every failing event (2, 4, ... 1024 after ten turns)" % name, line=i.lineno)
+    ctx.floor("C10.c.restart-once", SM, "restart sites of activated flows", n, 2)
